@@ -7,6 +7,7 @@ import GoImap.Lemmas.ClientConcPend
 import GoImap.Lemmas.ClientConcClose
 import GoImap.Lemmas.ClientConcCont
 import GoImap.Lemmas.ClientConcNoPanic
+import GoImap.Lemmas.ClientConcUnambRun
 /-!
   C13 — the client is safe for concurrent use. Property theorems about `GoImap.ClientConc`
   (Model/ClientConc.lean: one step per c.mutex / c.encMutex critical section or channel operation,
@@ -46,16 +47,19 @@ import GoImap.Lemmas.ClientConcNoPanic
   Proved for variants that register continuation requests under the encoder lock (`fixed`):
     contreq_fifo             literal headers / IDLE lines reach the wire in the order their
                              requests were registered, and requests are granted in that order
+  Proved for variants with all three continuation-request repairs (`fixed`):
+    contreq_unambiguous      requests of two different commands never coexist in the queue
   guarded_fields             lockset discipline of the model's field-access table
   Counterexamples of the unrepaired behaviours, by `decide`: f21_counterexample,
     f21_lockset_counterexample, f26_idle_counterexample, contreq_fifo_legacy_counterexample,
+    contreq_unambiguous_legacy_counterexample,
     f26_reorder_only_counterexample, late_contreq_counterexample (0d4c77c),
     f26_enabled_lockset_counterexample; plus the same schedules on the repaired model.
 
   Partial / not proved (validated by the oracle on every enforced schedule and -race workload):
-    * contreq_fifo does not state that requests of two different commands never coexist in the
-      queue (which makes the grant of a "+" unambiguous); that part is judged by the oracle clause
-      `continuation-request-misrouted` on every run
+    * that the "+" the reader consumes is the one the SERVER meant for that command (the server's
+      view of the wire) is not stated in Lean; contreq_fifo and contreq_unambiguous give the client
+      side of it, the oracle clause `continuation-request-misrouted` judges every run
     * data-race freedom itself is a property of the Go memory model: Lean proves the lockset
       discipline of the table (guarded_fields), the -race workloads support that the table is complete
 -/
@@ -330,6 +334,28 @@ theorem contreq_fifo_legacy_counterexample :
     let s := run Legacy.f26idle (init Legacy.f26idle scOrder)
       [5, 4, 4, 4, 4, 4, 1, 0, 0, 0, 0, 0, 1, 0, 0, 0, 0, 0, 0, 0, 0, 4, 4, 5, 5, 5, 5]
     (s.regLog, wireHeads s.wire, s.contAddressed, s.contResumed) = ([1, 0], [0, 1], [0], [1]) := by
+  decide
+
+
+/-- contreq_unambiguous (repaired model): requests of two different commands never coexist in the
+    continuation-request queue, in any state of any schedule; so the request a "+" is matched to
+    (the head of the queue) can only belong to the one command that is waiting for a continuation.
+    The owner of the encoder lock cannot release it while one of its requests is queued. -/
+theorem contreq_unambiguous (v : Variant) (h1 : v.idleUnderEnc = true) (h2 : v.cancelOnClose = true)
+    (h3 : v.cancelIfCompleted = true) (sc : Scenario) (sched : List Nat) :
+    let s := run v (init v sc) sched
+    ∀ e1 e2, e1 ∈ s.contReqs → e2 ∈ s.contReqs → e1.2 = e2.2 := by
+  intro s
+  exact unamb_same s (unamb_run v h1 h2 h3 sc sched.length sched rfl)
+
+example : fixed.idleUnderEnc = true ∧ fixed.cancelOnClose = true ∧ fixed.cancelIfCompleted = true :=
+  ⟨rfl, rfl, rfl⟩
+
+/-- F26 once more: in the unrepaired order the requests of IDLE (command 1) and of LOGIN
+    (command 0) sit in the queue together, IDLE's in front -/
+theorem contreq_unambiguous_legacy_counterexample :
+    let s := run Legacy.f26idle (init Legacy.f26idle scF26) [5, 4, 4, 4, 4]
+    s.contReqs.map Prod.snd = [1, 0] := by
   decide
 
 /-! ### the lockset discipline of the model's field-access table -/
